@@ -21,6 +21,7 @@ import (
 	"0chain.net/chaincore/transaction"
 	"0chain.net/core/common"
 	"0chain.net/core/config"
+	"0chain.net/core/datastore"
 	"0chain.net/core/encryption"
 	"0chain.net/miner"
 	"0chain.net/smartcontract/dbs/event"
@@ -62,8 +63,21 @@ var (
 // string, hence a different account, that encryption.IsHash accepts as well).
 const UpperBase = 100
 
+// ExtraBase: account number ExtraBase+k is the k-th address of the history's own address table
+// (SetExtra): 64-hex strings taken from contract node keys.
+const ExtraBase = 200
+
+var extraAddrs []string
+
+func SetExtra(a []string) { extraAddrs = a; acctIndex = nil }
+
 func AccountID(i int) string {
 	switch {
+	case i >= ExtraBase:
+		if i-ExtraBase < len(extraAddrs) {
+			return extraAddrs[i-ExtraBase]
+		}
+		return encryption.Hash(fmt.Sprintf("verif extra %d", i))
 	case i >= UpperBase:
 		return strings.ToUpper(AccountID(i - UpperBase))
 	case i < 0:
@@ -340,6 +354,8 @@ type Snap struct {
 	Accts   []Acct
 	Nodes   []Node
 	Unknown int // leaves whose path is neither a known account nor a known node key
+	Bad     int // leaves at an account address that do not decode as a client state
+	BadIDs  []int
 }
 
 const GenesisStamp = "0000000000000000000000000000000000000000000000000000000000000000"
@@ -377,11 +393,30 @@ func (u *Universe) Snapshot(mpt util.MerklePatriciaTrieI) Snap {
 		return nil
 	}, util.NodeTypeValueNode)
 	var s Snap
+	extra := map[string]int{}
+	nodePaths := map[string]bool{}
+	for k := range InsertedKeys {
+		nodePaths[encryption.Hash(k)] = true
+	}
+	for k, a := range extraAddrs {
+		// an address that is the trie path of a recorded contract node holds that node, not an account,
+		// until an applied transfer has credited it
+		if nodePaths[a] && !CreditedAddrs[a] {
+			continue
+		}
+		extra[string(util.Path(a))] = ExtraBase + k
+	}
 	for _, p := range paths {
-		if id, ok := u.acct[p]; ok {
+		id, ok := u.acct[p]
+		if !ok {
+			id, ok = extra[p]
+		}
+		if ok {
 			st := &state.State{}
 			if err := mpt.GetNodeValue(util.Path(p), st); err != nil {
-				panic(err)
+				s.Bad++ // a leaf at an account address that is not a client state
+				s.BadIDs = append(s.BadIDs, id)
+				continue
 			}
 			ti, ok := u.txn[hex.EncodeToString(st.TxnHashBytes)]
 			if !ok {
@@ -694,6 +729,9 @@ func AccountIndex(id string) int {
 			acctIndex[AccountID(i)] = i
 			acctIndex[AccountID(UpperBase+i)] = UpperBase + i
 		}
+		for k, a := range extraAddrs {
+			acctIndex[a] = ExtraBase + k
+		}
 	}
 	if i, ok := acctIndex[id]; ok {
 		return i
@@ -705,10 +743,68 @@ func AccountIndex(id string) int {
 // recorded (before updateState appends the fee transfer).
 type recSC struct{ sci.SmartContractInterface }
 
+// InsertedKeys: every key handed to StateContext.InsertTrieNode by the set-up and by the real
+// contracts during the current Real history.
+var InsertedKeys = map[string]bool{}
+
+// CreditedAddrs: addresses an applied transfer of the current history has credited (maintained by
+// the engine).
+var CreditedAddrs = map[string]bool{}
+
+// LeafLen: length of the raw value stored at the trie path of client id addr (0 = nothing there).
+func (s *State) LeafLen(addr string) int {
+	raw, err := s.MPT.GetNodeValueRaw(util.Path(addr))
+	if err != nil {
+		return 0
+	}
+	return len(raw)
+}
+
+type recCtx struct{ cstate.StateContextI }
+
+func (c *recCtx) InsertTrieNode(key datastore.Key, v util.MPTSerializable) (datastore.Key, error) {
+	InsertedKeys[key] = true
+	return c.StateContextI.InsertTrieNode(key, v)
+}
+
+// NodesAtAccountAddresses lists the recorded contract node keys that are shaped like a client id
+// (64 lower-case hex digits) and at whose own address - the trie path of the client with that id -
+// a leaf exists, although no transfer has credited that address (skip).
+func (s *State) NodesAtAccountAddresses(skip map[string]bool) []string {
+	var out []string
+	for k := range InsertedKeys {
+		if !encryption.IsHash(k) || skip[k] {
+			continue
+		}
+		if raw, err := s.MPT.GetNodeValueRaw(util.Path(k)); err == nil && len(raw) > 0 {
+			out = append(out, k)
+		}
+	}
+	sort.Strings(out)
+	return out
+}
+
+// Node56: install the 56-byte probe node in Real histories (off by default).
+var Node56 bool
+
+const Node56Key = "verif:node-of-56-bytes"
+
+// HashShapedKeys: recorded contract node keys usable as a client id, sorted.
+func HashShapedKeys() []string {
+	var out []string
+	for k := range InsertedKeys {
+		if encryption.IsHash(k) {
+			out = append(out, k)
+		}
+	}
+	sort.Strings(out)
+	return out
+}
+
 func (p *recSC) Execute(t *transaction.Transaction, fn string, input []byte, b cstate.StateContextI) (string, error) {
 	rec := &Recorded{Called: true, Real: true}
 	theScript.last = rec
-	out, err := p.SmartContractInterface.Execute(t, fn, input, b)
+	out, err := p.SmartContractInterface.Execute(t, fn, input, &recCtx{b})
 	for _, tr := range b.GetTransfers() {
 		rec.Trs = append(rec.Trs, Tr{AccountIndex(tr.ClientID), AccountIndex(tr.ToClientID), uint64(tr.Amount)})
 	}
@@ -766,8 +862,21 @@ func NewRealState(env *Env, u *Universe, init []Acct) *State {
 		RewardRoundFrequency: 250, OwnerId: RealOwner, CooldownPeriod: 100,
 		Cost: map[string]int{"add_miner": 361, "add_sharder": 331, "update_settings": 137},
 	}
-	if _, err := st.MPT.Insert(util.Path(encryption.Hash(minersc.GlobalNodeKey)), mgn); err != nil {
+	InsertedKeys = map[string]bool{}
+	rsetup := &recCtx{sc.NewCtx(st.MPT, 1, sc.Txn(encryption.Hash("verif miner setup"), RealOwner, minersc.ADDRESS, 0, 0))}
+	if _, err := rsetup.InsertTrieNode(minersc.GlobalNodeKey, mgn); err != nil {
 		panic(err)
+	}
+	// the miner SC global settings node, stored the way minersc.InitConfig stores it
+	if _, err := rsetup.InsertTrieNode(minersc.GLOBALS_KEY, &minersc.GlobalSettings{Version: 1, Fields: map[string]string{"server_chain.block.max_block_size": "10",
+		"server_chain.block.max_byte_size": "1638400", "server_chain.block.replicators": "0", "server_chain.block.proposal.max_wait_time": "180ms"}}); err != nil {
+		panic(err)
+	}
+	if Node56 {
+		// a contract node whose msgpack encoding is exactly 56 bytes, the size of an encoded client state
+		if _, err := rsetup.InsertTrieNode(Node56Key, &minersc.GlobalSettings{Version: 1, Fields: map[string]string{"server_chain.block.max_block_size": "10"}}); err != nil {
+			panic(err)
+		}
 	}
 	// a miner and a sharder with empty stake pools: targets of the real minersc addToDelegatePool
 	pre := sc.NewCtx(st.MPT, 1, sc.Txn(encryption.Hash("verif provider setup"), RealOwner, minersc.ADDRESS, 0, 0))
@@ -781,6 +890,7 @@ func NewRealState(env *Env, u *Universe, init []Acct) *State {
 		mn.StakePool.Settings.DelegateWallet = AccountID(FirstUser + 7)
 		mn.StakePool.Settings.MaxNumDelegates = 10
 		mn.StakePool.Settings.ServiceChargeRatio = 0.1
+		InsertedKeys[mn.GetKey()] = true
 		if _, err := pre.InsertTrieNode(mn.GetKey(), mn); err != nil {
 			panic(err)
 		}
@@ -789,6 +899,7 @@ func NewRealState(env *Env, u *Universe, init []Acct) *State {
 	fgn := &faucetsc.GlobalNode{ID: faucetsc.ADDRESS, FaucetConfig: &faucetsc.FaucetConfig{PourAmount: 10, MaxPourAmount: 100,
 		PeriodicLimit: 250, GlobalLimit: 600, IndividualReset: 5 * time.Second, GlobalReset: 20 * time.Second,
 		OwnerId: RealOwner, Cost: map[string]int{}}}
+	InsertedKeys[fgn.GetKey()] = true
 	if _, err := setup.InsertTrieNode(fgn.GetKey(), fgn); err != nil {
 		panic(err)
 	}
@@ -800,14 +911,14 @@ func NewRealState(env *Env, u *Universe, init []Acct) *State {
 	v.Set(p+"max_destinations", 3)
 	v.Set(p+"max_description_length", 20)
 	v.Set(p+"owner_id", RealOwner)
-	if err := vestingsc.InitConfig(setup); err != nil {
+	if err := vestingsc.InitConfig(&recCtx{setup}); err != nil {
 		panic(err)
 	}
 	zgn := &zcnsc.GlobalNode{ID: zcnsc.ADDRESS, ZCNSConfig: &zcnsc.ZCNSConfig{
 		MinMintAmount: 1, MinBurnAmount: 5, MinStakeAmount: 1, MinStakePerDelegate: 1, MaxStakeAmount: 1000,
 		MinLockAmount: 1, MinAuthorizers: 1, PercentAuthorizers: 0.7, MaxFee: 100, OwnerId: RealOwner, Cost: map[string]int{},
 		MaxDelegates: 10, HealthCheckPeriod: time.Hour}}
-	if err := zgn.Save(setup); err != nil {
+	if err := zgn.Save(&recCtx{setup}); err != nil {
 		panic(err)
 	}
 	return st
@@ -950,3 +1061,14 @@ func RunBlocks(env *Env, init []Acct, txns []Txn) (res BlocksResult) {
 	}
 	return res
 }
+
+// AllKeys: every recorded contract node key, sorted.  HashOf: the id-shaped hash of a key.
+func AllKeys() []string {
+	var out []string
+	for k := range InsertedKeys {
+		out = append(out, k)
+	}
+	sort.Strings(out)
+	return out
+}
+func HashOf(k string) string { return encryption.Hash(k) }
